@@ -22,12 +22,12 @@ CONE = {
     "C03": [("tok_stateful", 400)],
     "C04": [("history", 350), ("scale_down", 150), ("to_abs", 200), ("to_rel", 200), ("rel_abs_rel", 200), ("getters", 120)],
     "C05": [("quantise", 800)],
-    "C06": [("qnl", 700), ("pairings", 300)],
+    "C06": [("qnl", 700), ("pairings", 300), ("util", 120)],
     "C07": [("normalise", 900), ("concat_repeat", 300)],
     "C08": [("split", 800), ("concat_repeat", 300)],
     "C09": [("split_bars", 500), ("bar", 200), ("comp_file", 100)],
     "C10": [("bar", 700)],
-    "C11": [("history", 250), ("bar", 200), ("split_bars", 150), ("pad", 150), ("tok_roundtrip", 150), ("tok_stream", 200), ("composition", 100), ("util", 250)],
+    "C11": [("history", 250), ("bar", 200), ("split_bars", 150), ("pad", 150), ("tok_roundtrip", 150), ("tok_stream", 200), ("composition", 100), ("util", 250), ("midi_load", 150), ("comp_file", 80)],
     "C12": [("midi_events", 300), ("midi_roundtrip", 400), ("midi_roundtrip_mi", 250)],
     "C13": [("midi_load", 600), ("comp_file", 200)],
     "C14": [("transpose_rel", 600), ("history", 150), ("composition", 120)],
